@@ -1,6 +1,8 @@
 import EinxModel.Driver.Util
 import EinxModel.Driver.Registry
 import EinxModel.Driver.Update
+import EinxModel.Driver.Notation
+import EinxModel.Driver.IR
 /-! Line-protocol driver: one JSON request per input line, one JSON answer per output line. -/
 open Lean Einx.Driver
 
@@ -8,6 +10,8 @@ def dispatch (j : Json) : R Json := do
   match ← strF j "kind" with
   | "ping" => pure (Json.mkObj [("pong", Json.bool true)])
   | "registry" => Einx.Driver.Registry.handle j
+  | "notation" => Einx.Driver.Notation.handle j
+  | "ir_run" | "validate" | "denote" => Einx.Driver.IR.handle j
   | "update_denote" | "update_lower" | "update_get" | "update_addr" | "np_put" | "np_ufunc_at" | "assignments" =>
     Einx.Driver.Update.handle j
   | k => throw s!"unknown kind {k}"
